@@ -15,6 +15,7 @@ import (
 	"sort"
 	"strings"
 	"sync"
+	"time"
 
 	"github.com/gotd/td/bin"
 	"github.com/gotd/td/internal/verif/kit"
@@ -109,10 +110,22 @@ func evalRT0(w wRT) kit.Result {
 		b1 = append([]byte(nil), b1...)
 		v1 := reflect.ValueOf(c.new())
 		presetObjects(v0, v1)
-		if _, err := decodeInto(v1, append([]byte(nil), b1...), bare); err != nil {
+		src := append([]byte(nil), b1...)
+		if _, err := decodeInto(v1, src, bare); err != nil {
 			return kit.Bad("decode-error"+innermostField(err), "%s %s (%s): own encoding (%d bytes) does not decode: %v", c.key(), w.Prof, mode, len(b1), err)
 		}
+		// The decoded value must not depend on the memory it was decoded from: connections and
+		// callers reuse read buffers. Scribble over the source, then compare and re-encode.
+		for i := range src {
+			src[i] = 0xA5
+		}
 		if d := semEqual(v0, v1, shortName(c)); d != "" {
+			// decide between a wrong value and a value that aliases its source: decode again and leave the source alone
+			v1c := reflect.ValueOf(c.new())
+			presetObjects(v0, v1c)
+			if _, err := decodeInto(v1c, append([]byte(nil), b1...), bare); err == nil && semEqual(v0, v1c, shortName(c)) == "" {
+				return kit.Bad("value-aliases-source", "%s %s (%s): the decoded value equals the encoded one, but changes at %s when the %d-byte buffer it was decoded from is overwritten afterwards", c.key(), w.Prof, mode, d, len(b1))
+			}
 			return kit.Bad("roundtrip-value", "%s %s (%s): decoded value differs from the encoded one at %s", c.key(), w.Prof, mode, d)
 		}
 		b2, err := encodeValue(v1, bare)
@@ -124,7 +137,7 @@ func evalRT0(w wRT) kit.Result {
 		}
 	}
 	if w.Prof.Len != "" {
-		return kit.OKo(lenClass(c, w.Prof, "len"))
+		return kit.OKo("len:" + strings.SplitN(w.Prof.Len, ":", 2)[1])
 	}
 	return kit.OKo(optKind(w.Prof.Opt) + ":" + w.Prof.Scalars)
 }
@@ -485,10 +498,10 @@ func main() {
 	reg.computeHeights()
 	kit.Main("C21", "exploration", func(c *kit.Ctx) {
 		os.Setenv("GOTRACEBACK", "none") // worker crashes: keep the fatal error line, not the goroutine dump
-		workers := 8
+		workers := 12
 		rt := kit.NewFamily(c, "roundtrip", evalRT)
 		safe := kit.NewIsolatedFamily(c, "decode-safety", workers, 3072, evalSafe)
-		deep := kit.NewIsolatedFamily(c, "deep-nesting", 3, 4096, evalDeep)
+		deep := kit.NewIsolatedFamily(c, "deep-nesting", 6, 4096, evalDeep)
 		if c.Replaying() {
 			return
 		}
@@ -543,17 +556,19 @@ func main() {
 
 		c.Rule("Constructors: all %d entries of tg/mt/e2e TypesConstructorMap(). Values are built by reflection from a profile: scalars {z: zero, n: canonical non-zero, L (thorough): min ints / NaN / 254-byte strings / 256-byte bytes} x "+
 			"optional fields {none, all, each single flag-bit group (fields sharing a flag bit are switched together; present fields get their flag set like the generated setters do)} x vector length {0,1,2} x class-typed fields "+
-			"{constructor 0, 1 of the class; thorough: every constructor of the class for each field in turn}; in addition every string / bytes field (and vector of them) of every constructor, one at a time, with a value of exactly 0, 253, 254 and 255 bytes (TL short/long string form boundary; class <kind>-field-len-<n>); nesting depth 2 with the minimal constructor below; generic !X fields hold a tg function (and a nested generic). "+
-			"Round trip, boxed and bare: Encode succeeds, Decode into a fresh constructor-map value (generic object fields pre-set to the expected type) gives a value equal to the encoded one (floats by bits, nil = empty vector), "+
+			"{constructor 0, 1 of the class; thorough: every constructor of the class for each field in turn}; in addition every string / bytes field (and vector of them) of every constructor, one at a time, with a value of exactly 0, 253, 254, 255 (TL short/long string form boundary), 1023, 1024, 4095, 4096, 4097, 65535, 65536 and 2^20 bytes (plausible copy / pooling thresholds; quick: the last three only for bytes fields; class <kind>-field-len-<n>); nesting depth 2 with the minimal constructor below; generic !X fields hold a tg function (and a nested generic). "+
+			"Round trip, boxed and bare: Encode succeeds, Decode into a fresh constructor-map value (generic object fields pre-set to the expected type), then the buffer that was decoded from is overwritten with 0xA5, and only then the value must equal the encoded one (floats by bits, nil = empty vector; class value-aliases-source if it was equal before the overwrite), "+
 			"re-encoding gives identical bytes. Decode safety (worker processes, 3 GiB limit): for 2 base encodings per constructor, decoded through the constructor (target from the constructor map), through DecodeBare, "+
-			"and through each of the %d generated class decoders for each of its constructors: every prefix (quick: word steps, thorough: byte steps), every word position replaced by each of 13 words "+
+			"and through each of the %d generated class decoders for each of its constructors: every prefix (quick: word steps, thorough: byte steps), every word position replaced by each of 13 words (DecodeBare, and in quick the second base encoding: only -1 and 2^31-1) "+
 			"(0,1,2,1023,1024,1025,2^20,2^31-1,-1,2^31,vector id,boolTrue id,string header fe ff ff ff), and the constructor id followed by 0..1500 copies of each word: no panic, value or error (never nil without error), "+
-			"and every vector in the (partially) decoded value has cap <= max(1024, 2*len+16). Deep nesting: every constructor that can contain itself through a class-typed field, nested to an encoding of 1 MiB (quick; 10 MiB for the 3 "+
+			"and every vector in the (partially) decoded value has cap <= max(1024, 2*len+16). Deep nesting: every constructor that can contain itself through a class-typed field, nested to an encoding of 1 MiB (quick; 10 MiB for the "+
 			"cheapest per level) / 10 MiB (thorough) and decoded in a worker process: a stack overflow kills the worker and is reported as crash. distinct = distinct witnesses; one decode-safety witness covers all positions of one mutation.",
 			len(reg.ctors), len(classDecoders))
 		c.Assume("which fields are conditional and which flag bit governs them is read from the generated TypeInfo(); the list of class decoders is generated from the sources by gen_classes.sh (cross-checked against ClassConstructorsMap)")
 		c.Assume("values whose flag bits contradict their fields, nil class fields and nil vector elements are not values of the schema and are not generated")
 
+		t0 := time.Now()
+		phase := func(n string) { c.Set("phase_end_s_"+n, int(time.Since(t0).Seconds())) }
 		// ---- round trip
 		var rj []wRT
 		scal := []string{"z", "n"}
@@ -578,7 +593,11 @@ func main() {
 				if lenKind(f.typ) == "" {
 					continue
 				}
-				for _, n := range []int{0, 253, 254, 255} {
+				lens := []int{0, 253, 254, 255, 1023, 1024, 4095, 4096, 4097, 65535, 65536, 1 << 20}
+				if c.Quick() && lenKind(f.typ) == "string" {
+					lens = lens[:9] // quick: the three largest sizes only for bytes fields (strings are immutable copies)
+				}
+				for _, n := range lens {
 					rj = append(rj, wRT{ct.key(), profile{Scalars: "n", Opt: "all", Vec: 1, Pick: 0, Len: fmt.Sprintf("%s:%d", f.name, n)}})
 				}
 			}
@@ -605,6 +624,45 @@ func main() {
 			}
 		})
 
+		phase("roundtrip")
+		// ---- deep nesting
+		type cand struct {
+			w    wDeep
+			cost int
+		}
+		var cands []cand
+		for _, ct := range reg.ctors {
+			for _, f := range selfFields(ct) {
+				pre, _, post, err := nestParts(ct, f)
+				if err != nil {
+					c.AddInt("self_recursive_without_synthetic_nesting", 1)
+					continue
+				}
+				cands = append(cands, cand{wDeep{ct.key(), f, 1 << 20}, len(pre) + len(post)})
+			}
+		}
+		c.Set("self_recursive_constructor_fields", len(cands))
+		sort.SliceStable(cands, func(i, j int) bool { return cands[i].cost < cands[j].cost })
+		var dj []wDeep
+		for i, cd := range cands {
+			if c.Thorough() || i < 1 {
+				w := cd.w
+				w.Bytes = 10 << 20
+				dj = append(dj, w)
+			}
+			if c.Quick() {
+				dj = append(dj, cd.w)
+			}
+		}
+		deepDone := make(chan struct{})
+		go func() { // runs next to the decode-safety family: the crashing cases spend their time growing a 1 GB stack
+			defer close(deepDone)
+			kit.Parallel(len(dj), 6, func(i int) {
+				if !deep.Eval(dj[i]) {
+					bad.add(fmt.Sprintf("deep-nesting-%dMiB", dj[i].Bytes>>20), dj[i].Ctor+"."+dj[i].Field)
+				}
+			})
+		}()
 		// ---- decode safety
 		words := []string{le(0), le(1), le(2), le(1023), le(1024), le(1025), le(1 << 20), le(1<<31 - 1), le(0xffffffff), le(1 << 31), le(bin.TypeVector), le(bin.TypeTrue), "feffffff"}
 		step := "4"
@@ -632,7 +690,7 @@ func main() {
 				}
 				for _, via := range vias {
 					ms := muts
-					if via == "bare" {
+					if via == "bare" || (c.Quick() && pi == 1) {
 						ms = []string{"none", "prefix:" + step, "word:" + le(0xffffffff), "word:" + le(1<<31-1)}
 					}
 					for _, m := range ms {
@@ -672,40 +730,9 @@ func main() {
 			c.NotExhaustive("time budget hit inside decode-safety")
 		}
 
-		// ---- deep nesting
-		type cand struct {
-			w    wDeep
-			cost int
-		}
-		var cands []cand
-		for _, ct := range reg.ctors {
-			for _, f := range selfFields(ct) {
-				pre, _, post, err := nestParts(ct, f)
-				if err != nil {
-					c.AddInt("self_recursive_without_synthetic_nesting", 1)
-					continue
-				}
-				cands = append(cands, cand{wDeep{ct.key(), f, 1 << 20}, len(pre) + len(post)})
-			}
-		}
-		c.Set("self_recursive_constructor_fields", len(cands))
-		sort.SliceStable(cands, func(i, j int) bool { return cands[i].cost < cands[j].cost })
-		var dj []wDeep
-		for i, cd := range cands {
-			if c.Thorough() || i < 3 {
-				w := cd.w
-				w.Bytes = 10 << 20
-				dj = append(dj, w)
-			}
-			if c.Quick() {
-				dj = append(dj, cd.w)
-			}
-		}
-		kit.Parallel(len(dj), 3, func(i int) {
-			if !deep.Eval(dj[i]) {
-				bad.add(fmt.Sprintf("deep-nesting-%dMiB", dj[i].Bytes>>20), dj[i].Ctor+"."+dj[i].Field)
-			}
-		})
+		phase("decode-safety")
+		<-deepDone
+		phase("deep-nesting")
 	})
 }
 
